@@ -62,6 +62,29 @@ func hasChanOp(s ast.Stmt) bool {
 	return found
 }
 
+// mayBlock: the statement has a send, a receive or a Wait() call (close never blocks).
+func mayBlock(s ast.Stmt) bool {
+	found := false
+	ast.Inspect(s, func(n ast.Node) bool {
+		switch x := n.(type) {
+		case *ast.FuncLit, *ast.BlockStmt, *ast.SelectStmt:
+			return false
+		case *ast.SendStmt:
+			found = true
+		case *ast.UnaryExpr:
+			if x.Op == token.ARROW {
+				found = true
+			}
+		case *ast.CallExpr:
+			if se, ok := x.Fun.(*ast.SelectorExpr); ok && se.Sel.Name == "Wait" && len(x.Args) == 0 {
+				found = true
+			}
+		}
+		return true
+	})
+	return found
+}
+
 // lockCall: X.Lock() / X.RLock() as expression statement
 func lockCall(s ast.Stmt) (x ast.Expr, r bool, ok bool) {
 	es, isEs := s.(*ast.ExprStmt)
@@ -161,7 +184,16 @@ func rewriteStmt(s ast.Stmt) []ast.Stmt {
 		return []ast.Stmt{pre, s}
 	}
 	if hasChanOp(s) {
-		return []ast.Stmt{stmt(call(rt("Yield"), site(s))), s}
+		out := []ast.Stmt{stmt(call(rt("Yield"), site(s))), s}
+		if mayBlock(s) {
+			switch s.(type) {
+			case *ast.ExprStmt, *ast.AssignStmt, *ast.SendStmt:
+				// the goroutine may have been woken by another one: park again so
+				// that the two never run side by side
+				out = append(out, stmt(call(rt("Woken"), site(s))))
+			}
+		}
+		return out
 	}
 	return []ast.Stmt{s}
 }
@@ -315,6 +347,7 @@ func rewriteSelect(sel *ast.SelectStmt) []ast.Stmt {
 		Body: &ast.BlockStmt{List: []ast.Stmt{
 			stmt(call(rt("SelectBlock"), st)),
 			&ast.SelectStmt{Body: &ast.BlockStmt{List: blkCases}},
+			stmt(call(rt("Woken"), st)),
 		}}}
 	// body switch
 	var bodyCases []ast.Stmt
